@@ -26,7 +26,7 @@ pub fn stub_g21(u: Wrapping<u32>) -> Wrapping<u32> {
     Wrapping(uf_g21::call(u.0))
 }
 
-//@ harness name=belt_leaf_g prop=C07,C20 tier=quick bits=32 est=15 desc="L: g5(u), g13(u), g21(u) == oracle G_5, G_13, G_21 (H on each octet, then rotate left by r) for all 2^32 u"
+//@ harness name=belt_leaf_g prop=C07,C20 tier=quick bits=32 est=20 desc="L: g5(u), g13(u), g21(u) == oracle G_5, G_13, G_21 (H on each octet, then rotate left by r) for all 2^32 u"
 verif_harness! {
     name: belt_leaf_g,
     bytes: 4,
@@ -64,7 +64,7 @@ verif_harness! {
     }
 }
 
-//@ harness name=belt_wire_enc prop=C07,C20 tier=quick bits=384 stub=1 est=110 desc="W: BeltBlock::new(key).encrypt_block(b) == oracle belt-block encryption, all keys, all blocks, G uninterpreted"
+//@ harness name=belt_wire_enc prop=C07,C20 tier=quick bits=384 stub=1 est=145 desc="W: BeltBlock::new(key).encrypt_block(b) == oracle belt-block encryption, all keys, all blocks, G uninterpreted"
 verif_harness! {
     name: belt_wire_enc,
     bytes: 48,
@@ -81,7 +81,7 @@ verif_harness! {
     }
 }
 
-//@ harness name=belt_wire_dec prop=C07,C20 tier=quick bits=384 stub=1 est=110 desc="W: BeltBlock::new(key).decrypt_block(b) == oracle belt-block decryption (6.1.4), all keys, all blocks, G uninterpreted"
+//@ harness name=belt_wire_dec prop=C07,C20 tier=quick bits=384 stub=1 est=115 desc="W: BeltBlock::new(key).decrypt_block(b) == oracle belt-block decryption (6.1.4), all keys, all blocks, G uninterpreted"
 verif_harness! {
     name: belt_wire_dec,
     bytes: 48,
@@ -98,7 +98,7 @@ verif_harness! {
     }
 }
 
-//@ harness name=belt_rt_ed prop=C01,C20 tier=quick bits=384 stub=1 est=140 need=4 desc="W: BeltBlock dec(enc(b)) == b incl. key loading, all keys, all blocks, G5/G13/G21 arbitrary functions"
+//@ harness name=belt_rt_ed prop=C01,C20 tier=quick bits=384 stub=1 est=130 need=4 desc="W: BeltBlock dec(enc(b)) == b incl. key loading, all keys, all blocks, G5/G13/G21 arbitrary functions"
 verif_harness! {
     name: belt_rt_ed,
     bytes: 48,
@@ -115,7 +115,7 @@ verif_harness! {
     }
 }
 
-//@ harness name=belt_rt_de prop=C01,C20 tier=quick bits=384 stub=1 est=125 need=4 desc="W: BeltBlock enc(dec(b)) == b incl. key loading, all keys, all blocks, G5/G13/G21 arbitrary functions"
+//@ harness name=belt_rt_de prop=C01,C20 tier=quick bits=384 stub=1 est=130 need=4 desc="W: BeltBlock enc(dec(b)) == b incl. key loading, all keys, all blocks, G5/G13/G21 arbitrary functions"
 verif_harness! {
     name: belt_rt_de,
     bytes: 48,
